@@ -223,6 +223,9 @@ def run_probe():
 # ---------------------------------------------------------------------------
 # restricted C -> Gallina
 # ---------------------------------------------------------------------------
+LOOP_UNROLL = 4
+
+
 class Untranslatable(Exception):
     pass
 
@@ -704,6 +707,22 @@ class Tr:
                 term = "if (%s =? %s)\nthen (%s)\nelse (%s)" % (xv, val, from_pos(p), term)
             self.break_k.pop()
             return self.guarded(g, "let %s := %s in\n%s" % (xv, tx, term))
+        if kind == "ForStmt":
+            # for (init; cond; inc) body  with a small iteration count: unrolled LOOP_UNROLL times; if the condition still
+            # holds after that the translated function gives up (None), so theorems about it cover only loops that end
+            init, _cv, c, inc, body = (s.get("inner", []) + [{}] * 5)[:5]
+            if '"ContinueStmt"' in json.dumps(body):
+                raise Untranslatable("continue in a for loop")
+
+            def rounds(n):
+                g, tc = self.cond(c) if c.get("kind") else ([], "true")
+                if n == 0:
+                    return self.guarded(g, "if %s then None (* more than %d iterations *) else (%s)" % (tc, LOOP_UNROLL, nxt()))
+                self.break_k.append(nxt)
+                step = self.stmts([body] + ([inc] if inc.get("kind") else []), lambda: rounds(n - 1))
+                self.break_k.pop()
+                return self.guarded(g, "if %s\nthen (%s)\nelse (%s)" % (tc, step, nxt()))
+            return self.stmts([init] if init.get("kind") else [], lambda: rounds(LOOP_UNROLL))
         if kind == "BreakStmt":
             # a break nested in an `if` of a switch arm: continue after the switch (rest of the arm is dropped)
             if self.break_k:
@@ -1058,6 +1077,7 @@ class TrMem(Tr):
 MEM_LEAFS = [
     ("rtrlib/rtr/packets.c", "rtr_get_pdu_type"),
     ("rtrlib/rtr/packets.c", "rtr_pdu_check_size"),
+    ("rtrlib/rtr/packets.c", "rtr_prefix_pdu_is_valid"),
 ]
 MEM_OUT = os.path.join(vlib.THEORIES, "Gen", "GeneratedMem.v")
 
